@@ -5,6 +5,7 @@ import (
 	"fmt"
 	"sort"
 	"sync"
+	"sync/atomic"
 	"time"
 )
 
@@ -75,6 +76,7 @@ type Shared struct {
 	MapSites                                               map[string]int
 	Queries                                                int
 	SolverTime                                             time.Duration
+	domDecided                                             atomic.Int64
 	maxPaths                                               int
 	deadline                                               time.Time
 	TimedOut                                               bool
@@ -153,6 +155,7 @@ type Explorer struct {
 	trace        []Decision
 	memo         map[*Term]uint64
 	known        map[*Term]bool
+	doms         map[*Term]*dom
 	maxFan       int
 	obs          []obsEntry
 }
@@ -192,10 +195,109 @@ func cpd(ds []Decision, more ...Decision) []Decision {
 	return append(r, more...)
 }
 
+// ---- per-variable value domains (cheap pre-solver filter) ----
+//
+// For every 8-bit (or boolean) input variable the path keeps the set of values allowed by the
+// single-variable conditions met so far. A condition over one such variable that is constant
+// over the whole set is decided without a fork and without a solver query: the other outcome
+// is unsatisfiable under the path condition. This is an exact shortcut, not an approximation.
+
+type dom [4]uint64
+
+func (d *dom) has(v uint64) bool { return d[v>>6]&(1<<(v&63)) != 0 }
+
+func (ex *Explorer) domOf(v *Term) *dom {
+	if d, ok := ex.doms[v]; ok {
+		return d
+	}
+	d := &dom{}
+	n := uint64(256)
+	if v.S.K == SBool {
+		n = 2
+	}
+	for i := uint64(0); i < n; i++ {
+		d[i>>6] |= 1 << (i & 63)
+	}
+	ex.doms[v] = d
+	return d
+}
+
+func domVar(c *Term) *Term {
+	if c.fvN != 1 || c.size > 4000 {
+		return nil
+	}
+	v := c.fv
+	if v.S.K == SBool || (v.S.K == SBV && v.S.W == 8) {
+		return v
+	}
+	return nil
+}
+
+var ttCache sync.Map // *Term -> *dom: the values of the single variable for which the term is true
+
+func truthTable(c *Term, v *Term) *dom {
+	if t, ok := ttCache.Load(c); ok {
+		return t.(*dom)
+	}
+	n := uint64(256)
+	if v.S.K == SBool {
+		n = 2
+	}
+	var t dom
+	m := map[string]uint64{}
+	for i := uint64(0); i < n; i++ {
+		m[v.Name] = i
+		if evalTerm(c, m, map[*Term]uint64{}) == 1 {
+			t[i>>6] |= 1 << (i & 63)
+		}
+	}
+	ttCache.Store(c, &t)
+	return &t
+}
+
+// domEval evaluates c for every allowed value of its single variable.
+// Returns (canTrue, canFalse) and the refined domains.
+func (ex *Explorer) domEval(c *Term, v *Term) (canT, canF bool, dt, df dom) {
+	d := ex.domOf(v)
+	t := truthTable(c, v)
+	for i := 0; i < 4; i++ {
+		dt[i] = d[i] & t[i]
+		df[i] = d[i] &^ t[i]
+		if dt[i] != 0 {
+			canT = true
+		}
+		if df[i] != 0 {
+			canF = true
+		}
+	}
+	return
+}
+
 func (ex *Explorer) Branch(c *Term) bool {
 	// a condition already decided on this path (syntactically) needs no fork
 	if v, ok := ex.known[c]; ok {
 		return v
+	}
+	if v := domVar(c); v != nil {
+		canT, canF, dt, df := ex.domEval(c, v)
+		if canT != canF {
+			ex.known[c] = canT
+			ex.known[Not(c)] = !canT
+			ex.sh.domDecided.Add(1)
+			return canT
+		}
+		if !canT && !canF {
+			panic(abortPath{kind: "infeasible", reason: "empty domain"})
+		}
+		r := ex.branch1(c)
+		if r {
+			*ex.doms[v] = dt
+		} else {
+			*ex.doms[v] = df
+		}
+		ex.known[c] = r
+		ex.known[Not(c)] = !r
+		return r
 	}
 	r := ex.branch1(c)
 	ex.known[c] = r
@@ -277,6 +379,16 @@ func (ex *Explorer) Assume(c *Term) {
 	if c.IsFalse() {
 		panic(abortPath{kind: "infeasible", reason: "assume false"})
 	}
+	if v := domVar(c); v != nil {
+		canT, canF, dt, _ := ex.domEval(c, v)
+		if !canT {
+			panic(abortPath{kind: "infeasible", reason: "assumption unsatisfiable"})
+		}
+		if !canF {
+			return // implied by the path condition
+		}
+		*ex.doms[v] = dt
+	}
 	ex.pc = append(ex.pc, c)
 	ex.known[c] = true
 	ex.known[Not(c)] = false
@@ -302,6 +414,11 @@ func (ex *Explorer) Assert(c *Term, msg string) {
 	}
 	if v, ok := ex.known[c]; ok && v {
 		return
+	}
+	if v := domVar(c); v != nil {
+		if _, canF, _, _ := ex.domEval(c, v); !canF {
+			return
+		}
 	}
 	if ex.pos < len(ex.prefix) {
 		// inside the replayed prefix the path condition is identical to the parent's, which
